@@ -251,21 +251,25 @@ private:
     m_base_absval -= ghost_x;
   }
 
+  // ny and nz are the values of y and z (if singletons) before the
+  // operation: x can be y or z.
   void rewrite_apply_var(arith_operation_t op, const variable_t &x,
                          const variable_t &y, const variable_t &z,
+                         const boost::optional<number_t> &ny,
+                         const boost::optional<number_t> &nz,
                          unsigned coefficient) {
     assert(coefficient > 1);
     // TODO: ignored case if op is a subtraction or division
     // TODO: ignored cases if y or z are not singleton
     
-    if (boost::optional<number_t> n = m_base_absval.at(z).singleton()) {
-      rewrite_apply(op, x, y, *n, coefficient);
+    if (nz) {
+      rewrite_apply(op, x, y, *nz, coefficient);
       return;
     }
 
     if (op == OP_ADDITION || op == OP_MULTIPLICATION) {
-      if (boost::optional<number_t> n = m_base_absval.at(y).singleton()) {
-        rewrite_apply(op, x, z, *n, coefficient);
+      if (ny) {
+        rewrite_apply(op, x, z, *ny, coefficient);
 	return;
       }
     }
@@ -525,10 +529,12 @@ public:
   void apply(arith_operation_t op, const variable_t &x, const variable_t &y,
              const variable_t &z) override {
     if (!is_bottom()) {
+      boost::optional<number_t> ny = m_base_absval.at(y).singleton();
+      boost::optional<number_t> nz = m_base_absval.at(z).singleton();
       m_base_absval.apply(op, x, y, z);
       
       for (auto coefficient : crab_domain_params_man::get().coefficients()) {
-        rewrite_apply_var(op, x, y, z, coefficient);
+        rewrite_apply_var(op, x, y, z, ny, nz, coefficient);
       }
     }
   }
